@@ -402,6 +402,12 @@ func (lp *LenProver) summary(callee *ssa.Function, args []ssa.Value, res lin, re
 			paramTerm[sub.name(par)] = lp.term(args[i])
 		} else if isLenType(par.Type()) {
 			paramTerm["len("+sub.name(par)+")"] = lp.lenTerm(args[i])
+		} else if pt, ok := par.Type().Underlying().(*types.Pointer); ok && isIntType(pt.Elem()) {
+			// a pointer to an integer handed down: what the callee reads through it is the caller's canonical
+			// load through the same access path
+			if path := lp.canonAddr(args[i]); path != "" {
+				paramTerm[fmt.Sprintf("*%s@%s", sub.canonAddr(par), shortSSAFn(callee))] = linAtom(fmt.Sprintf("*%s@%s", path, shortSSAFn(lp.fn)))
+			}
 		}
 	}
 	subst := func(l lin) (lin, bool) {
